@@ -3,6 +3,7 @@ CONSTANTS
   Bug = "DropField"
   Sweeps = {"small"}
   PairDepth = 2
+  NearDepth = 2
   DeepDepth = 2
   EmitCases = FALSE
 INIT Init
